@@ -146,7 +146,11 @@ def _distribute_try(computation_graph: ComputationGraph,
             continue
         footprint = computation_memory(n)
         # Candidates : hints only with enough capacity
-        candidates = [(agents_capa[a], a) for a in hints.host_with(n.name)
+        # host_with gives computation names: the hinted agents are the ones
+        # already hosting one of these computations.
+        hinted_agents = {var_hosted[c] for c in hints.host_with(n.name)
+                         if c in var_hosted}
+        candidates = [(agents_capa[a], a) for a in hinted_agents
                       if agents_capa[a] > footprint]
         # If no hinted agents has enough capacity, fall back to all agents
         if not candidates:
